@@ -23,7 +23,7 @@ open Sexp
 namespace MinMax
 
 def runWith (p : Sexp) (ins : List Sexp) (k : Prog → State → Sexp) : Sexp :=
-  Dep.withObject p ins fun prg _ st => k prg ⟨st, []⟩
+  Dep.withObject p ins fun prg _ st => k prg ⟨st, [], (ins.filterMap Pred.ofSexp)⟩
 
 def mmToSexp (m : MMPred) : Sexp :=
   .list [m.fn.toSexp, m.tm.oldpred.toSexp, m.tm.newpred.toSexp,
